@@ -446,7 +446,34 @@ pub fn mutate(text: &str, ch: &mut Choices) -> String {
     for _ in 0..n_mut {
         let len = chars.len().max(1) as u32;
         let pos = ch.draw(len.min(65536)) as usize;
-        match ch.draw(6) {
+        match ch.draw(7) {
+            // a character replaced by a Unicode relative of the same class: a decimal digit of another script with
+            // the same value (fullwidth, Arabic-Indic, Devanagari, Bengali, mathematical bold), a fullwidth letter
+            // or punctuation mark, a look-alike dash / colon / quote / space (S-C04-j lets the grammar accept any
+            // Unicode decimal digit and then unwraps the integer parse)
+            6 => {
+                let start = pos.min(chars.len().saturating_sub(1));
+                let target = ch.draw(3);
+                let found = (start..chars.len()).chain(0..start).find(|i| match target {
+                    0 | 1 => chars[*i].is_ascii_digit(),
+                    _ => chars[*i].is_ascii_graphic(),
+                });
+                if let Some(i) = found {
+                    let c = chars[i];
+                    chars[i] = if let Some(d) = c.to_digit(10) {
+                        let base = ch.pick(&[0xFF10u32, 0x0660, 0x06F0, 0x0966, 0x09E6, 0x1D7CE, 0x0E50, 0x1D7D8]);
+                        char::from_u32(base + d).unwrap_or(c)
+                    } else {
+                        match c {
+                            '-' => ch.pick(&['\u{2010}', '\u{2013}', '\u{2212}', '\u{FF0D}']),
+                            ':' => ch.pick(&['\u{FF1A}', '\u{A789}', '\u{2236}']),
+                            '"' => ch.pick(&['\u{201C}', '\u{201D}', '\u{FF02}']),
+                            ' ' => ch.pick(&['\u{A0}', '\u{2009}', '\u{3000}']),
+                            _ => char::from_u32(c as u32 - 0x21 + 0xFF01).unwrap_or(c),
+                        }
+                    };
+                }
+            }
             // a space at a boundary between two kinds of characters (digits / letters / punctuation)
             5 => {
                 let class = |c: char| if c.is_ascii_digit() { 0 } else if c.is_alphabetic() { 1 } else if c == ' ' { 2 } else { 3 };
